@@ -1,7 +1,7 @@
 """C19 — grid summarising conserves observations and aggregates per cell
-(tracklib/core/raster.py Raster / getCell / addCollectionToRaster / computeAggregates,
-algo/summarising.py summarize, core/utils.py co_*)."""
-import math, statistics, itertools
+(tracklib/core/raster.py Raster / AFMap / getCell / addAFMap / addCollectionToRaster / computeAggregates as calls on ONE
+raster object, algo/summarising.py summarize, core/utils.py co_*)."""
+import math, statistics, itertools, copy, json, os
 from fractions import Fraction
 from engine import Prop, fbits, bitsf, ratstr, parse_rat, tok_list, untok, close
 
@@ -10,6 +10,8 @@ NO_DATA = -99999.0
 OPS = ["co_count", "co_sum", "co_min", "co_max", "co_avg", "co_median"]
 OPCH = {"co_count": "c", "co_sum": "s", "co_min": "m", "co_max": "M", "co_avg": "a", "co_median": "d"}
 DEFAULT_AGGS = [["v", o] for o in OPS] + [["uid", "co_count"]]
+ERRNAMES = {"AttributeError": "attr", "KeyError": "key", "IndexError": "index", "TypeError": "type", "NameError": "name"}
+BUILTIN_FEATS = ("uid", "x", "y", "idx")
 RES = [(1, 1), (0.5, 0.5), (2, 1), (1, 2), (1.5, 1), (0.5, 2), (3, 1), (1, 3), (2, 2), (0.25, 0.5), (1, 1.5)]
 
 
@@ -30,27 +32,55 @@ class P(Prop):
         ("TracklibVerif.Props.C19", "TV.C19.conservation", "the scatter never fails; cell (i,j) holds exactly the values of the observations whose getCell is (j,i); sizes sum to the number of observations, any per-value weight (e.g. non-NaN) is conserved"),
         ("TracklibVerif.Props.C19", "TV.C19.aggregate_spec", "co_count/co_sum/co_min/co_max/co_avg/co_median = that aggregate over the non-NaN values; no non-NaN value -> 0 for count and sum, no-data otherwise"),
         ("TracklibVerif.Props.C19", "TV.C19.aggregates_entry", "computeAggregates writes, in (line i, column j), the operator's value on that cell with NaN replaced by the no-data value"),
-        ("TracklibVerif.Props.C19", "TV.C19.summarize_spec", "end to end: on every non-empty collection (a north-south / east-west line of observations or a single one included: one column / one row) summarize never fails, builds a well-formed grid covering all observations and returns computeAggregates of cells holding exactly the located values"),
+        ("TracklibVerif.Props.C19", "TV.C19.aggregatesN_entry", "computeAggregates on a raster whose no-data value is nd (None included): entry (i,j) is the operator's value on the cell, nd when it is NaN; a cell without a non-NaN value holds 0 for count / sum and the raster's OWN no-data value otherwise"),
+        ("TracklibVerif.Props.C19", "TV.C19.session_geometry", "no call on a raster (addAFMap, addCollectionToRaster, computeAggregates, setNoDataValue; failing calls included) changes the grid geometry; one outcome per call"),
+        ("TracklibVerif.Props.C19", "TV.C19.add_collection_spec", "addCollectionToRaster REPLACES the values: on a raster in any state, for a collection inside the extent whose tracks have every feature of the bands, it does not raise, leaves bands / geometry / no-data untouched, keeps values for exactly the features of the bands, and cell (i,j) of a feature holds exactly that feature's values of the observations of THIS collection whose getCell is (j,i)"),
+        ("TracklibVerif.Props.C19", "TV.C19.add_collection_conservation", "conservation on a raster with a history: after addCollectionToRaster the cell sizes of every feature add up to the number of observations of THIS collection, and any per-value weight (non-NaN: the co_count total) is conserved"),
+        ("TracklibVerif.Props.C19", "TV.C19.add_collection_outside", "an observation outside the extent (every track having every feature, at least one band): addCollectionToRaster raises TypeError, bands and geometry untouched"),
+        ("TracklibVerif.Props.C19", "TV.C19.obs_cover", "the observations scattered for a feature a track has are all its positions, in order"),
+        ("TracklibVerif.Props.C19", "TV.C19.add_collection_missing_feature", "a track lacking a feature of the bands: AnalyticalFeatureError, and every cell of every feature is left empty (the earlier collection's values are gone)"),
+        ("TracklibVerif.Props.C19", "TV.C19.session_spec", "invariant over call sequences: after ANY calls, then a well-formed addCollectionToRaster(T), then any calls other than addCollectionToRaster (bands added later, ...), then computeAggregates with every band <feature>#<operator>: neither raises, and EVERY band, whatever it held before, holds its operator over exactly the values of the observations of T located in each cell, NaN -> the raster's own no-data value as it is at that call (constructor's novalue or the last setNoDataValue)"),
+        ("TracklibVerif.Props.C19", "TV.C19.summarize_spec", "one-shot corollary, end to end: on every collection of non-empty tracks (a north-south / east-west line of observations or a single one included: one column / one row), distinct (feature, operator) pairs, every track having every feature, summarize never fails nor returns 0, builds a well-formed grid covering all observations with one band per pair in call order, each band = its operator over exactly the located values, NaN -> NO_DATA_VALUE (the no-data value of the raster summarize builds)"),
         ("TracklibVerif.Props.C19", "TV.C19.rat_floor_ceil", "the driver's Rat.floor / Rat.ceil are the Int.floor / Int.ceil of the theorems"),
     ]
     partial = []
-    open_statements = ["IEEE rounding in (x-xmin)/rx, margins and sums is outside the theorems (floor-ring statement); sampled by the transfer check"]
-    modelled = ("core/raster.py Raster.__init__ (margin, ncol/nrow = max(1, ceil(..))), getCell, addAFMap/addCollectionToRaster (scatter with Python list indexing), "
-                "computeAggregates (NaN -> no-data); core/utils.py co_count co_sum co_min co_max co_avg co_median; the collection's bounding box is "
-                "modelled as min/max of the coordinates")
-    trusted = ["math.floor / math.ceil / float.is_integer are taken as exact floor, ceiling and integrality of the float"]
+    open_statements = ["IEEE rounding in (x-xmin)/rx, margins and sums is outside the theorems (floor-ring statement); sampled by the transfer check on float streams",
+                       "the values a TypeError-failing addCollectionToRaster leaves behind and the bands a failing computeAggregates has already rewritten are modelled and compared "
+                       "(driver), not stated as theorems (the exceptions themselves are: add_collection_missing_feature, add_collection_outside)",
+                       ]
+    modelled = ("core/raster.py: Raster.__init__ (margin, ncol/nrow = max(1, ceil(..))), getCell, and the Raster object as a state machine (Model/RasterSession.lean): "
+                "the bands (AFMap.__init__ name / grid checks, addAFMap with and without grid, getNamesOfAFMap order), collectionValuesGrid (absent before the first collection), "
+                "addCollectionToRaster (features = band names up to '#', the dictionary REPLACED, AnalyticalFeatureError test after the replacement, scatter loop "
+                "track x feature x observation with Python list indexing, TypeError on an observation outside the grid leaving the partial scatter), computeAggregates (bands in "
+                "insertion order, IndexError / AttributeError / KeyError / NameError at the first cell of a band, NaN -> the raster's current no-data value, None included — fix 279f7b2), get/setNoDataValue; "
+                "algo/summarising.py summarize (argument checks, bounding box, one addAFMap per (feature, operator) in call order via AFMap.getMeasureName, add, compute); "
+                "core/track.py hasAnalyticalFeature / getObsAnalyticalFeature for uid, x, y, idx and the track's own features; "
+                "core/utils.py co_count co_sum co_min co_max co_avg co_median; the collection's bounding box is modelled as min/max of the coordinates")
+    trusted = ["math.floor / math.ceil / float.is_integer are taken as exact floor, ceiling and integrality of the float;",
+               "the iteration order of the Python set of features in addCollectionToRaster is recomputed by the harness (same insertions, same process) and passed to the model; "
+               "it only matters for the values left behind when the scatter raises;",
+               "a band name crosses the protocol as its '#'-separated parts"]
     rule = ("exhaustive: grids over [0,W]x[0,H] (W,H in 1..3) for every listed resolution, getCell of every half-integer lattice point in [-0.5,W+0.5]x[-0.5,H+0.5]; "
             "one-track collections (0,0),(2,2),p for every lattice p in [0,2]^2, every listed resolution; "
             "every north-south and east-west line of 1..4 observations (steps 0.5 and 1; 1 observation = a single fix) for every listed resolution, margins 0 and 0.25 "
             "(extent of zero width / height: one column / one row); "
+            "every sequence of 1..5 calls from {addAFMap(v#co_count), addCollectionToRaster(c0), addCollectionToRaster(c1), computeAggregates} on ONE raster "
+            "(thorough: 1..6 calls, addAFMap(w#co_median) too); "
             "random: 1..3 tracks on a half-integer lattice (cell borders, outer border, corners; 1 in 4 collections lies on one vertical or horizontal line or at a single position), square and non-square resolutions, margins 0/0.125/0.25/0.5 at Rat "
             "and 0.05/0.1/0.3 at Float, random float coordinates at Float (1 in 6 on one line / at one position); two features v, w with NaN plus uid; "
             "ONE summarize call per case with several (feature, operator) pairs in a generated order (all six operators on v shuffled, or 2..4 operators on v "
             "in any order mixed with operators on w and uid; median first / in the middle / last), every produced grid is checked; 1 in 5 cases summarises the same "
             "collection twice; exhaustive: every ordered pair and triple of distinct operators on one feature over a fixed collection; "
+            "SESSIONS on one Raster object (Rat lattice and Float): 2..3 collections over one study area (tracks with 0..5 observations, a track may lack w), the raster built on an explicit "
+            "box / on collection 0's bounding box / returned by summarize() / on a box too small; templates reuse (bands, then add+compute for 2..3 collections), summ-reuse (another "
+            "collection scattered on the raster summarize returned), late-band (bands added after a pass, for scattered and for new features), change (feature values rewritten between add and "
+            "compute and before a second add), two-rasters (two rasters from the SAME Bbox object), nodata (Raster(novalue=x | None), setNoDataValue before the bands / between add and compute / between two computes; 1 in 4 of the other sessions has its own novalue too), errors (compute before add, names taken / empty / without '#' / unknown operator, explicit "
+            "grids of right and wrong shape, observations outside), soup (3..9 random calls incl. summarize in scalar / callable / duplicated / ragged / empty argument forms, features x, y, idx); "
+            "after every call the whole object state (geometry, no-data, every band, collectionValuesGrid) is compared with the model; the oracle checks, after every well-formed "
+            "addCollectionToRaster, the footprint of every observation's cell and the values kept per cell, and after every computeAggregates EVERY band against the collection scattered LAST; "
             "direct calls of the cell operators in sequence on ONE list (every ordered pair on fixed lists, random sequences), checking the values and that the list "
             "is left unchanged. "
-            "non-trivial = a grid of at least 2 cells and at least 2 observations (sum), any (cell, op)")
+            "non-trivial = a grid of at least 2 cells and at least 2 observations (sum), any (cell, op), a session that scatters and aggregates")
 
     def setup(self):
         from tracklib.core.obs import Obs
@@ -65,6 +95,9 @@ class P(Prop):
         self.Obs, self.ENU, self.T, self.Track, self.TC = Obs, ENUCoords, ObsTime, Track, TrackCollection
         self.Bbox, self.Raster, self.summarize = Bbox, Raster, summarize
         self.opf = {o: getattr(U, o) for o in OPS}
+        from tracklib.core.raster import AFMap
+        self.AFMap = AFMap
+        self._names = {}
 
     # ---------------------------------------------------------------- generators
     def exhaustive_scopes(self, tier):
@@ -72,7 +105,9 @@ class P(Prop):
                 "collections {(0,0),(2,2),p}, p over the 25 half-integer lattice points of [0,2]^2, %d resolutions, margin 0" % len(RES),
                 "collections of 1..4 observations on one north-south or east-west line (steps 0.5 and 1), %d resolutions, margins 0 and 0.25" % len(RES),
                 "one summarize call with every ordered pair (30) and every ordered triple (120) of distinct operators on the same feature, fixed collection with NaN-free, mixed and all-NaN cells",
-                "every ordered pair (36, including the same operator twice) of cell operators called in sequence on one list, for 6 fixed lists"]
+                "every ordered pair (36, including the same operator twice) of cell operators called in sequence on one list, for 6 fixed lists",
+                "every sequence of 1..%d calls from {addAFMap(v#co_count), %saddCollectionToRaster(c0), addCollectionToRaster(c1), computeAggregates} on one raster over [0,2]^2 with unit cells (%d sessions), "
+                "the whole object state compared after every call" % ((5, "", 1364) if tier == "quick" else (6, "addAFMap(w#co_median), ", 19530))]
 
     def cases(self, rng, tier):
         out = []
@@ -109,7 +144,12 @@ class P(Prop):
             for a in OPS:
                 for b in OPS:
                     out.append({"kind": "op", "mode": "q", "vals": vals, "order": [a, b]})
+        out += list(self.session_enum(tier))
         nrand = 2500 if tier == "quick" else 40000
+        for _ in range(nrand // 2):
+            out.append(self.session(rng, "q"))
+        for _ in range(nrand // 4):
+            out.append(self.session(rng, "f"))
         for _ in range(nrand // 2):
             n = rng.randrange(0, 8)
             out.append({"kind": "op", "mode": "q", "vals": self.values(rng, n),
@@ -257,6 +297,8 @@ class P(Prop):
     def describe(self, case):
         if case["kind"] == "op":
             return self.describe_op(case)
+        if case["kind"] == "session":
+            return self.describe_session(case)
         t = {"kind": case["kind"], "res": "square" if case["res"][0] == case["res"][1] else "non-square", "margin": case["margin"]}
         if case["kind"].startswith("sum"):
             t["tracks"] = len(case["tracks"])
@@ -276,10 +318,14 @@ class P(Prop):
     def nontrivial(self, case):
         if case["kind"] in ("cell", "op"):
             return True
+        if case["kind"] == "session":
+            return self.nontrivial_session(case)
         return len(self.all_obs(case)) >= 2 and self.ncells(case) >= 2
 
     # ---------------------------------------------------------------- implementation
     def impl(self, case):
+        if case["kind"] == "session":
+            return self.impl_session(case)
         if case["kind"] == "cell":
             b = case["box"]
             r = self.Raster(self.Bbox(self.ENU(b[0], b[2], 0), self.ENU(b[1], b[3], 0)), tuple(case["res"]), case["margin"])
@@ -324,30 +370,36 @@ class P(Prop):
     # ---------------------------------------------------------------- model
     def enc(self, case):
         if case["mode"] == "q":
-            return lambda v: "nan" if v == "nan" else ratstr(v)
-        return lambda v: "nan" if v == "nan" else fbits(v)
+            return lambda v: "None" if v is None or v == "None" else "nan" if v == "nan" else ratstr(v)
+        return lambda v: "None" if v is None or v == "None" else "nan" if v == "nan" else fbits(v)
 
     def dec(self, case):
         if case["mode"] == "q":
-            return lambda w: NAN if w == "nan" else float(parse_rat(w))
-        return bitsf
+            return lambda w: None if w == "None" else NAN if w == "nan" else float(parse_rat(w))
+        return lambda w: None if w == "None" else bitsf(w)
 
     def requests(self, case):
         e = self.enc(case)
         m = case["mode"]
+        if case["kind"] == "session":
+            return self.requests_session(case)
         if case["kind"] == "cell":
             b, res, mg = case["box"], case["res"], case["margin"]
             head = "C19.cell %s %s %s %s %s %s %s %s" % (m, e(b[0]), e(b[1]), e(b[2]), e(b[3]), e(res[0]), e(res[1]), e(mg))
             return ["%s %s %s" % (head, e(p[0]), e(p[1])) for p in case["pts"]]
         if case["kind"] == "op":
             return ["C19.agg %s %s %s" % (m, tok_list(e(v) for v in case["vals"]), "".join(OPCH[o] for o in case["order"]))]
-        obs = self.all_obs(case)
-        xs, ys = tok_list(e(o[0]) for o in obs), tok_list(e(o[1]) for o in obs)
-        tail = "%s %s %s" % (e(case["res"][0]), e(case["res"][1]), e(case["margin"]))
-        # the aggregates are pure functions of the cell contents: one model request per feature, its operators in call order
-        return ["C19.sum %s %s %s %s %s %s" % (m, xs, ys, tok_list(e(v) for v in self.fvals(case, f)), tail,
-                                                "".join(OPCH[o] for ff, o in self.aggs(case) if ff == f))
-                for f in self.feats(case)]
+        # summarize() with all its (feature, operator) pairs, in call order, is inside the model (Model/RasterSession.lean)
+        return self.requests_session(self.sum_as_session(case))
+
+    def sum_as_session(self, case):
+        feats = self.feats(case)
+        tracks = [{"uid": i + 1, "pts": [[o[0], o[1]] for o in tr],
+                   "f": {n: [o[idx] for o in tr] for idx, n in ((2, "v"), (3, "w")) if n in feats}}
+                  for i, tr in enumerate(case["tracks"])]
+        ag = self.aggs(case)
+        op = ["summarize", 0, [f for f, _ in ag], [o for _, o in ag], case["res"], case["margin"], "list"]
+        return {"kind": "session", "mode": case["mode"], "colls": [tracks], "ops": [op] * case.get("runs", 1)}
 
     def parse_cell(self, w):
         if w == "none":
@@ -359,6 +411,8 @@ class P(Prop):
         d = self.dec(case)
         if any(r == "bad-request" for r in replies):
             raise ValueError("bad-request")
+        if case["kind"] == "session":
+            return self.decode_session(case, replies)
         if case["kind"] == "cell":
             geo, cells = None, []
             for r in replies:
@@ -371,22 +425,14 @@ class P(Prop):
             return {"geo": geo, "cells": cells}
         if case["kind"] == "op":
             return {"res": [d(w) for w in untok(replies[0])], "after": [NAN if v == "nan" else v for v in case["vals"]]}
-        if replies[0] == "err:raised":
-            return {"err": "raised"}
-        w = replies[0].split(" ")
-        geo = [d(w[0]), d(w[1]), d(w[2]), d(w[3]), int(w[4]), int(w[5])]
-        cells = [self.parse_cell(c) for c in untok(w[6])]
-        grids = {}
-        for f, r in zip(self.feats(case), replies):
-            wf = r.split(" ")
-            if wf[:7] != w[:7]:
-                raise ValueError("geometry / cells differ between the per-feature requests")
-            ops = [o for ff, o in self.aggs(case) if ff == f]
-            for o, g in zip(ops, untok(wf[7], "|")):
-                grids[f + "#" + o] = [[d(v) for v in untok(row)] for row in untok(g, ";")]
-        out = {"geo": geo, "cells": cells, "grids": grids}
-        if case.get("runs", 1) > 1:
-            out["again"] = {"geo": geo, "cells": cells, "grids": grids}
+        outs = []
+        for st in self.decode_session(self.sum_as_session(case), replies)["steps"]:
+            if st["out"] != "ok" or st["snap"] is None:
+                return {"err": "raised"}
+            outs.append({"geo": st["snap"]["geo"], "cells": st["cells"], "grids": {n: g for n, g in st["snap"]["bands"]}})
+        out = outs[0]
+        if len(outs) > 1:
+            out["again"] = outs[1]
         return out
 
     def compare(self, case, impl_out, model_out):
@@ -419,7 +465,7 @@ class P(Prop):
             return "y = %s is not in line %d (from the top) = [%s, %s)" % (y, l, float(y0), float(y1))
         return None
 
-    def agg(self, op, vals):
+    def agg(self, op, vals, nodata=NO_DATA):
         """the aggregate over the non-NaN values, computed with the standard library"""
         v = [float(x) for x in vals if x != "nan" and not isnan(x)]
         if op == "co_count":
@@ -427,7 +473,7 @@ class P(Prop):
         if op == "co_sum":
             return math.fsum(v) if v else 0
         if not v:
-            return NO_DATA
+            return nodata
         if op == "co_min":
             return min(v)
         if op == "co_max":
@@ -440,6 +486,8 @@ class P(Prop):
     def spec(self, case, out):
         if "err" in out:
             return "raised %s (%s)" % (out["err"], out.get("detail"))
+        if case["kind"] == "session":
+            return self.spec_session(case, out)
         if case["kind"] == "op":
             want_list = [NAN if v == "nan" else v for v in case["vals"]]
             for k, (o, got) in enumerate(zip(case["order"], out["res"])):
@@ -524,6 +572,9 @@ class P(Prop):
 
     # ---------------------------------------------------------------- shrinking / search
     def shrink(self, case):
+        if case["kind"] == "session":
+            yield from self.shrink_session(case)
+            return
         if case["kind"] == "cell":
             if len(case["pts"]) > 1:
                 for i in range(len(case["pts"])):
@@ -554,5 +605,660 @@ class P(Prop):
             yield dict(case, margin=0)
 
     def mutate(self, case, rng):
-        for _ in range(20):
+        for _ in range(10):
             yield self.lattice(rng, "q")
+        for _ in range(10):
+            yield self.session(rng, "q")
+
+    # ================================================================ sessions: sequences of calls on ONE raster object
+    # case: {"kind": "session", "mode": q|f, "colls": [[{"uid", "pts": [[x, y]..], "f": {name: [values]}}..]..], "ops": [..]}
+    # ops : ["new", [x0, x1, y0, y1] | {"of": k}, [rx, ry], margin, novalue | None]      Raster(Bbox | collection k's bbox, ...)
+    #       ["summarize", k, [features], [operator names], [rx, ry], margin, form]         the result becomes the current raster
+    #       ["band", name] | ["band", name, grid]                                           addAFMap
+    #       ["add", k]   ["compute"]   ["nodata", v]                                        addCollectionToRaster / computeAggregates / setNoDataValue
+    #       ["setfeat", k, track, name, [values]]                                           the feature is (re)written on the Track object
+    def skey(self, case):
+        return json.dumps(case, sort_keys=True)
+
+    def s_featvals(self, tr, af):
+        """values of feature `af` along a track of the case, None when the track does not have it"""
+        n = len(tr["pts"])
+        if af == "uid":
+            return [float(tr["uid"])] * n
+        if af == "x":
+            return [float(p[0]) for p in tr["pts"]]
+        if af == "y":
+            return [float(p[1]) for p in tr["pts"]]
+        if af == "idx":
+            return [float(k) for k in range(n)]
+        return tr["f"].get(af)
+
+    def build_coll(self, tracks):
+        out = []
+        for tr in tracks:
+            t = self.Track([], tr["uid"])
+            for k, p in enumerate(tr["pts"]):
+                t.addObs(self.Obs(self.ENU(p[0], p[1], 0), self.T.readUnixTime(1000 + k)))
+            for name, vals in tr["f"].items():
+                t.createAnalyticalFeature(name)
+                for k, v in enumerate(vals):
+                    t.setObsAnalyticalFeature(name, k, NAN if v == "nan" else v)
+            out.append(t)
+        return self.TC(out), out
+
+    def num(self, v):
+        return v if v is None or (isinstance(v, (int, float)) and not isinstance(v, bool)) else repr(v)
+
+    def pyval(self, v):
+        """a no-data value of the case: the string "None" stands for Python's None"""
+        return None if v == "None" else v
+
+    def snap(self, r):
+        if r is None:
+            return None
+        bands = []
+        for idx, name in enumerate(r.getNamesOfAFMap()):
+            m = r.getAFMap(name)
+            g = m.grid
+            if all(isinstance(c, list) and not c for row in g for c in row):
+                grid = "E"                                         # as created by addAFMap: every cell an empty list
+            else:
+                grid = [[self.num(c) for c in row] for row in g]
+            bands.append([name if (r.getAFMap(idx) is m and m.getName() == name) else name + " (getAFMap by index / getName differ)", grid])
+        vals = None
+        if hasattr(r, "collectionValuesGrid"):
+            vals = {af: [[[self.num(v) for v in cell] for cell in row] for row in grid] for af, grid in r.collectionValuesGrid.items()}
+        return {"geo": [r.xmin, r.xmax, r.ymin, r.ymax, r.ncol, r.nrow], "nodata": r.getNoDataValue(), "bands": bands, "values": vals}
+
+    def obs_cells(self, r, tracks):
+        cells = []
+        for t in tracks:
+            for k in range(t.size()):
+                c = r.getCell(t.getObs(k).position)
+                cells.append(None if c is None else [int(c[0]), int(c[1])])
+        return cells
+
+    def opfun(self, name):
+        if name in self.opf:
+            return self.opf[name]
+        def f(tarray):
+            return NAN
+        f.__name__ = name
+        return f
+
+    def call_summarize(self, col, afs, ops, res, mg, form):
+        fs = [self.opfun(o) for o in ops]
+        a = list(afs)
+        if form == "callable":                                      # the feature designated by a function carrying its name
+            def mk(n):
+                def g(track, i):
+                    return NAN
+                g.__name__ = n
+                return g
+            a = [n if n == "uid" else mk(n) for n in a]
+        if form == "scalar" and len(a) == 1 and len(fs) == 1:        # listify
+            return self.summarize(col, a[0], fs[0], tuple(res), mg)
+        return self.summarize(col, a, fs, tuple(res), mg)
+
+    def impl_session(self, case):
+        built = [self.build_coll(c) for c in case["colls"]]
+        r, steps, names_at = None, [], {}
+        boxes = {}                                                  # one Bbox OBJECT per box value: rasters of a session share it
+        for i, op in enumerate(case["ops"]):
+            kind, out, cells = op[0], "ok", None
+            if kind == "setfeat":
+                _, k, ti, name, vals = op
+                t = built[k][1][ti]
+                if name not in t.getListAnalyticalFeatures():
+                    t.createAnalyticalFeature(name)
+                for j, v in enumerate(vals):
+                    t.setObsAnalyticalFeature(name, j, NAN if v == "nan" else v)
+                steps.append({"out": "py", "snap": None, "cells": None})
+                continue
+            try:
+                if kind == "new":
+                    _, box, res, mg, nd = op
+                    if isinstance(box, dict):
+                        bb = built[box["of"]][0].bbox()
+                    else:
+                        bb = boxes.setdefault(tuple(box), self.Bbox(self.ENU(box[0], box[2], 0), self.ENU(box[1], box[3], 0)))
+                    r = self.Raster(bb, tuple(res), mg) if nd is None else self.Raster(bb, tuple(res), mg, self.pyval(nd))
+                elif kind == "summarize":
+                    _, k, afs, ops, res, mg, form = op
+                    r = None
+                    r = self.call_summarize(built[k][0], afs, ops, res, mg, form)
+                    if not isinstance(r, self.Raster):
+                        out, r = "zero" if r == 0 else "returned %r" % (r,), None
+                    else:
+                        cells = self.obs_cells(r, built[k][1])
+                elif r is None:
+                    out = "noraster"                                # the last summarize gave no raster: nothing to call
+                elif kind == "band":
+                    name = op[1]
+                    p = name.split("#")
+                    if len(p) == 2 and p[1] in self.opf and p[0]:
+                        name = self.AFMap.getMeasureName(p[0], self.opf[p[1]])
+                    if len(op) == 2:
+                        r.addAFMap(name)
+                    else:
+                        r.addAFMap(name, [list(row) for row in op[2]])
+                elif kind == "add":
+                    names_at[i] = list(r.getNamesOfAFMap())
+                    cells = self.obs_cells(r, built[op[1]][1])
+                    r.addCollectionToRaster(built[op[1]][0])
+                elif kind == "compute":
+                    r.computeAggregates()
+                elif kind == "nodata":
+                    r.setNoDataValue(self.pyval(op[1]))
+                else:
+                    raise ValueError("unknown op")
+            except Exception as e:
+                out = ERRNAMES.get(type(e).__name__, type(e).__name__)
+            steps.append({"out": out, "snap": self.snap(r), "cells": cells})
+        self._names[self.skey(case)] = names_at
+        return {"steps": steps}
+
+    # ---------------------------------------------------------------- model side
+    def af_order(self, names):
+        """iteration order of the Python set of features built as addCollectionToRaster builds it (same process, same order)"""
+        s = set()
+        for n in names:
+            if "#" in n:
+                s.add(n.split("#")[0])
+            else:
+                s.add(n)
+        return list(s)
+
+    def box_of(self, tracks):
+        xs = [p[0] for t in tracks for p in t["pts"]]
+        ys = [p[1] for t in tracks for p in t["pts"]]
+        return [min(xs), max(xs), min(ys), max(ys)]
+
+    def enc_tracks(self, e, tracks):
+        out = []
+        for t in tracks:
+            fs = tok_list(("%s=%s" % (n, tok_list(e(v) for v in vs)) for n, vs in t["f"].items()), "&")
+            out.append("%s@%s@%s@%s" % (e(t["uid"]), tok_list(e(p[0]) for p in t["pts"]), tok_list(e(p[1]) for p in t["pts"]), fs))
+        return tok_list(out, "|")
+
+    def apply_setfeat(self, colls, op):
+        _, k, ti, name, vals = op
+        colls[k][ti]["f"][name] = list(vals)
+
+    def requests_session(self, case):
+        e = self.enc(case)
+        colls = copy.deepcopy(case["colls"])
+        cached = self._names.get(self.skey(case)) or {}
+        names, toks = [], []
+        for i, op in enumerate(case["ops"]):
+            kind = op[0]
+            if kind == "setfeat":
+                self.apply_setfeat(colls, op)
+            elif kind == "new":
+                _, box, res, mg, nd = op
+                b = self.box_of(colls[box["of"]]) if isinstance(box, dict) else box
+                toks.append("N:" + ":".join(e(v) for v in [b[0], b[1], b[2], b[3], res[0], res[1], mg, NO_DATA if nd is None else nd]))
+                names = []
+            elif kind == "summarize":
+                _, k, afs, ops, res, mg, form = op
+                names = []
+                for a, o in zip(afs, ops):
+                    if a + "#" + o not in names:
+                        names.append(a + "#" + o)
+                toks.append("S:%s:%s:%s:%s:%s:%s:%s" % (tok_list(afs), tok_list(ops), e(res[0]), e(res[1]), e(mg),
+                                                        tok_list(self.af_order(names)), self.enc_tracks(e, colls[k])))
+            elif kind == "band":
+                if op[1] and op[1] not in names:
+                    names.append(op[1])
+                t = "B:" + (op[1] or "_")
+                if len(op) > 2:
+                    t += ":" + (";".join(tok_list(e(v) for v in row) for row in op[2]) if op[2] else "~")
+                toks.append(t)
+            elif kind == "add":
+                nm = cached.get(i, names)
+                toks.append("A:%s:%s" % (tok_list(self.af_order(nm)), self.enc_tracks(e, colls[op[1]])))
+            elif kind == "compute":
+                toks.append("C")
+            elif kind == "nodata":
+                toks.append("D:" + e(op[1]))
+        return ["C19.session %s %s" % (case["mode"], " ".join(toks))]
+
+    def decode_session(self, case, replies):
+        d = self.dec(case)
+        it = iter(replies[0].split(" "))
+        steps = []
+        for op in case["ops"]:
+            if op[0] == "setfeat":
+                steps.append({"out": "py", "snap": None, "cells": None})
+                continue
+            w = next(it).split("!")
+            if w[1] == "none":
+                steps.append({"out": w[0], "snap": None, "cells": None})
+                continue
+            g = w[1].split(":")
+            geo = [d(g[0]), d(g[1]), d(g[2]), d(g[3]), int(g[4]), int(g[5])]
+            bands = []
+            for b in untok(w[3], "&"):
+                nm, gr = b.split("=")
+                bands.append([nm, "E" if gr == "E" else [[d(v) for v in untok(row)] for row in untok(gr, ";")]])
+            vals = None
+            if w[4] != "none":
+                vals = {}
+                for x in untok(w[4], "&"):
+                    af, rows = x.split("=")
+                    vals[af] = [[[d(v) for v in untok(cell)] for cell in row.split("|")] for row in rows.split(";")]
+            cells = [self.parse_cell(c) for c in untok(w[5])] if op[0] in ("add", "summarize") else None
+            steps.append({"out": w[0], "snap": {"geo": geo, "nodata": d(w[2]), "bands": bands, "values": vals}, "cells": cells})
+        return {"steps": steps}
+
+    # ---------------------------------------------------------------- oracle
+    def vkey(self, v):
+        return (1, 0.0) if isnan(v) else (0, float(v))
+
+    def members_of(self, tracks, cells, af):
+        """cell (line, col) -> values of feature af of the observations located there (cells: validated col:line per observation)"""
+        vals = [v for t in tracks for v in self.s_featvals(t, af)]
+        m = {}
+        for v, c in zip(vals, cells):
+            m.setdefault((c[1], c[0]), []).append(NAN if v == "nan" else float(v))
+        return m, vals
+
+    def check_bands(self, geo, nodata, bands, tracks, cells, afs):
+        """every band whose name is <feature>#<one of the six operators> against the values located in each cell"""
+        ncol, nrow = geo[4], geo[5]
+        for name, g in bands:
+            p = name.split("#")
+            if len(p) < 2 or p[1] not in OPS or p[0] not in afs:
+                continue
+            f, o = p[0], p[1]
+            if g == "E" or len(g) != nrow or any(len(row) != ncol for row in g):
+                return "band %s is not a %d x %d grid of numbers" % (name, nrow, ncol)
+            members, vals = self.members_of(tracks, cells, f)
+            if o == "co_count":
+                nn = sum(1 for v in vals if v != "nan" and not isnan(v))
+                tot = sum(x for row in g for x in row if isinstance(x, (int, float)))
+                if tot != nn:
+                    return "the counts of %s sum to %s for %d non-NaN values of %d observations" % (name, tot, nn, len(vals))
+            for l in range(nrow):
+                for c in range(ncol):
+                    here = members.get((l, c), [])
+                    want = self.agg(o, here, nodata)
+                    got = g[l][c]
+                    if want is None:
+                        bad = got is not None
+                    else:
+                        bad = not isinstance(got, (int, float)) or isnan(got) or not close(got, want, 1e-9)
+                    if bad:
+                        return "%s[line %d][col %d] = %r, the values located there %s give %r (the raster's no-data value is %r)" % (
+                            name, l, c, got, here, want, nodata)
+        return None
+
+    def check_values(self, geo, values, tracks, cells, afs):
+        """collectionValuesGrid: per feature, every cell holds exactly the values of the observations located in it"""
+        ncol, nrow = geo[4], geo[5]
+        if values is None:
+            return None                                             # no collectionValuesGrid attribute to look at: the bands are what counts
+        if sorted(values) != sorted(afs):
+            return "values are kept for the features %s, the bands need %s" % (sorted(values), sorted(afs))
+        for f in afs:
+            members, vals = self.members_of(tracks, cells, f)
+            grid = values[f]
+            if len(grid) != nrow or any(len(row) != ncol for row in grid):
+                return "the values grid of %s is not %d x %d" % (f, nrow, ncol)
+            if sum(len(cell) for row in grid for cell in row) != len(vals):
+                return "%d values of %s are kept for %d observations" % (sum(len(cell) for row in grid for cell in row), f, len(vals))
+            for l in range(nrow):
+                for c in range(ncol):
+                    got = grid[l][c]
+                    if any(not isinstance(v, (int, float)) for v in got) or \
+                            sorted(map(self.vkey, got)) != sorted(map(self.vkey, members.get((l, c), []))):
+                        return "values of %s kept in [line %d][col %d] = %s, the observations located there have %s" % (f, l, c, got, members.get((l, c), []))
+        return None
+
+    def check_extent(self, box, mg, geo):
+        wx, wy = box[1] - box[0], box[3] - box[2]
+        for name, got, want, w in (("xmin", geo[0], box[0] - mg * wx, wx), ("xmax", geo[1], box[1] + mg * wx, wx),
+                                   ("ymin", geo[2], box[2] - mg * wy, wy), ("ymax", geo[3], box[3] + mg * wy, wy)):
+            if abs(got - want) > 1e-9 * max(1.0, abs(want), w):
+                return "grid extent %s = %r, expected %r" % (name, got, want)
+        return None
+
+    def spec_session(self, case, out):
+        colls = copy.deepcopy(case["colls"])
+        steps = out["steps"]
+        if len(steps) != len(case["ops"]):
+            return "%d outcomes for %d calls" % (len(steps), len(case["ops"]))
+        cur = None      # ghost of the current raster: {"res", "bands": names accepted so far}
+        last = None     # what the last successful addCollectionToRaster scattered: {"k", "tracks" (as they were), "cells", "afs"}
+        for i, (op, st) in enumerate(zip(case["ops"], steps)):
+            kind, outc, snap = op[0], st["out"], st["snap"]
+            where = "call %d %s: " % (i, json.dumps(op)[:120])
+            if kind == "setfeat":
+                self.apply_setfeat(colls, op)
+                continue
+            if kind == "new":
+                _, box, res, mg, nd = op
+                b = self.box_of(colls[box["of"]]) if isinstance(box, dict) else box
+                if outc != "ok" or snap is None:
+                    return where + "raised %s" % outc
+                m = self.check_extent(b, mg, snap["geo"])
+                if m:
+                    return where + m
+                if snap["bands"] or snap["values"] is not None:
+                    return where + "a new raster has bands %s / values %s" % (snap["bands"], snap["values"])
+                cur, last = {"res": res, "bands": []}, None
+                continue
+            if kind == "summarize":
+                _, k, afs, ops, res, mg, form = op
+                tracks = colls[k]
+                names = [a + "#" + o for a, o in zip(afs, ops)]
+                legit = (len(afs) > 0 and len(afs) == len(ops) and len(tracks) > 0 and all(t["pts"] for t in tracks)
+                         and len(set(names)) == len(names) and all(o in OPS for o in ops) and all(a for a in afs)
+                         and all(self.s_featvals(t, a) is not None for t in tracks for a in afs))
+                cur, last = None, None
+                if not legit:
+                    if outc == "ok" and snap is not None:
+                        cur = {"res": res, "bands": [n for n, _ in snap["bands"]]}
+                    continue
+                if outc != "ok" or snap is None:
+                    return where + "a well-formed summarize %s" % ("returned 0" if outc == "zero" else "raised " + outc)
+                m = self.check_extent(self.box_of(tracks), mg, snap["geo"])
+                if m:
+                    return where + m
+                pc = {"res": res, "mode": case["mode"]}
+                obs = [p for t in tracks for p in t["pts"]]
+                if st["cells"] is None or len(st["cells"]) != len(obs):
+                    return where + "cells for %s of %d observations" % (None if st["cells"] is None else len(st["cells"]), len(obs))
+                for p, c in zip(obs, st["cells"]):
+                    m = self.footprint(pc, snap["geo"], p[0], p[1], c)
+                    if m:
+                        return where + "observation (%s, %s) assigned to %s: %s" % (p[0], p[1], c, m)
+                if sorted(n for n, _ in snap["bands"]) != sorted(names):
+                    return where + "bands %s for the requested aggregates %s" % ([n for n, _ in snap["bands"]], names)
+                afs_set = sorted(set(afs))
+                m = self.check_values(snap["geo"], snap["values"], tracks, st["cells"], afs_set) or \
+                    self.check_bands(snap["geo"], snap["nodata"], snap["bands"], tracks, st["cells"], afs_set)
+                if m:
+                    return where + m
+                cur = {"res": res, "bands": list(names)}
+                last = {"k": k, "tracks": copy.deepcopy(tracks), "cells": st["cells"], "afs": afs_set}
+                continue
+            if cur is None or snap is None:
+                if snap is not None:
+                    cur, last = {"res": None, "bands": [n for n, _ in snap["bands"]]}, None
+                continue                                            # no raster the oracle knows about: nothing is demanded
+            geo = snap["geo"]
+            if kind == "band":
+                name = op[1]
+                legit = bool(name.strip()) and name not in cur["bands"] and (
+                    len(op) == 2 or (len(op[2]) == geo[5] and all(len(row) == geo[4] for row in op[2])))
+                if legit and outc != "ok":
+                    return where + "a well-formed addAFMap raised %s" % outc
+                if outc == "ok":
+                    if name not in [n for n, _ in snap["bands"]]:
+                        return where + "band %r is not listed after addAFMap: %s" % (name, [n for n, _ in snap["bands"]])
+                    cur["bands"].append(name)
+                continue
+            if kind == "nodata":
+                if outc != "ok" or snap["nodata"] != self.pyval(op[1]):
+                    return where + "no-data value %r after setNoDataValue(%r) (%s)" % (snap["nodata"], op[1], outc)
+                continue
+            if kind == "add":
+                tracks = colls[op[1]]
+                afs = sorted({n.split("#")[0] for n in cur["bands"]})
+                obs = [p for t in tracks for p in t["pts"]]
+                legit = (cur["res"] is not None and all(self.s_featvals(t, a) is not None for t in tracks for a in afs)
+                         and all(geo[0] <= p[0] <= geo[1] and geo[2] <= p[1] <= geo[3] for p in obs))
+                if not legit or outc != "ok":
+                    last = None
+                    if legit:
+                        return where + "addCollectionToRaster of a collection inside the grid, with every feature, raised %s" % outc
+                    continue
+                pc = {"res": cur["res"], "mode": case["mode"]}
+                if st["cells"] is None or len(st["cells"]) != len(obs):
+                    return where + "cells for %s of %d observations" % (None if st["cells"] is None else len(st["cells"]), len(obs))
+                for p, c in zip(obs, st["cells"]):
+                    m = self.footprint(pc, geo, p[0], p[1], c)
+                    if m:
+                        return where + "observation (%s, %s) assigned to %s: %s" % (p[0], p[1], c, m)
+                m = self.check_values(geo, snap["values"], tracks, st["cells"], afs)
+                if m:
+                    return where + m
+                last = {"k": op[1], "tracks": copy.deepcopy(tracks), "cells": st["cells"], "afs": afs}
+                continue
+            if kind == "compute":
+                wf = all(len(n.split("#")) >= 2 and n.split("#")[1] in OPS for n in cur["bands"])
+                legit = last is not None and wf and all(n.split("#")[0] in last["afs"] for n in cur["bands"])
+                if legit and outc != "ok":
+                    return where + "computeAggregates after a successful addCollectionToRaster, every band <feature>#<operator>, raised %s" % outc
+                if outc == "ok" and last is not None:
+                    # the bands describe the collection LAST scattered on the raster (values as they were then; a raster that
+                    # would read them at computeAggregates time is accepted too)
+                    m = self.check_bands(geo, snap["nodata"], snap["bands"], last["tracks"], last["cells"], last["afs"])
+                    if m and colls[last["k"]] != last["tracks"] and all(
+                            self.s_featvals(t, a) is not None for t in colls[last["k"]] for a in last["afs"]):
+                        if self.check_bands(geo, snap["nodata"], snap["bands"], colls[last["k"]], last["cells"], last["afs"]) is None:
+                            m = None
+                    if m:
+                        return where + "(bands after computeAggregates, collection %d scattered last) " % last["k"] + m
+                continue
+        return None
+
+    # ---------------------------------------------------------------- generators
+    def s_point(self, rng, mode, W, H, ox, oy):
+        if mode == "q":
+            x = rng.choice([0, W, rng.randrange(0, 2 * W + 1) / 2, rng.randrange(0, W + 1), rng.randrange(0, 4 * W + 1) / 4])
+            y = rng.choice([0, H, rng.randrange(0, 2 * H + 1) / 2, rng.randrange(0, H + 1), rng.randrange(0, 4 * H + 1) / 4])
+            return [ox + x, oy + y]
+        return [ox + rng.choice([0.0, W, rng.uniform(0, W)]), oy + rng.choice([0.0, H, rng.uniform(0, H)])]
+
+    def s_coll(self, rng, mode, W, H, ox, oy, uid0, empty_ok):
+        tracks = []
+        lack_w = rng.random() < 0.2                                  # a track without the feature w
+        for i in range(rng.randrange(1, 4)):
+            n = rng.randrange(0 if (empty_ok and rng.random() < 0.15) else 1, 6)
+            f = {}
+            if n:
+                f["v"] = self.values(rng, n)
+                if mode == "f":
+                    f["v"] = [v if v == "nan" else v + rng.choice([0, rng.uniform(-1, 1)]) for v in f["v"]]
+                if not (lack_w and i == 0):
+                    f["w"] = self.values(rng, n)
+            tracks.append({"uid": uid0 + i, "pts": [self.s_point(rng, mode, W, H, ox, oy) for _ in range(n)], "f": f})
+        return tracks
+
+    def s_band(self, rng, odd=0.12):
+        r = rng.random()
+        if r < odd:
+            return rng.choice(["", "v", "w", "v#undefined_op", "uid#undefined_co", "q#co_sum", "v#co_sum#bis"])
+        f = rng.choice(["v", "v", "v", "w", "w", "uid", "x", "y", "idx"])
+        return f + "#" + rng.choice(OPS)
+
+    def s_grid(self, rng, box, res, mg):
+        nc = max(1, math.ceil((box[1] - box[0]) * (1 + 2 * mg) / res[0])) + rng.choice([0, 0, 0, 0, 1, -1])
+        nr = max(1, math.ceil((box[3] - box[2]) * (1 + 2 * mg) / res[1])) + rng.choice([0, 0, 0, 0, 1, -1])
+        return [[float(rng.randrange(-3, 9)) for _ in range(max(0, nc))] for _ in range(max(0, nr))]
+
+    def session(self, rng, mode, tpl=None):
+        if mode == "q":
+            W, H = rng.randrange(1, 4), rng.randrange(1, 4)
+            ox, oy = rng.choice([0, 0, -3, 10, 0.5]), rng.choice([0, 0, 5, -7, -0.5])
+            res = list(rng.choice(RES))
+            mg = rng.choice([0, 0, 0.125, 0.25, 0.5])
+        else:
+            W, H = rng.choice([1.0, 10.0, 1000.0]), rng.choice([1.0, 10.0, 1000.0])
+            ox, oy = rng.uniform(-1e4, 1e4), rng.uniform(-1e4, 1e4)
+            res = [W / rng.choice([1, 2, 3, 4.5]), H / rng.choice([1, 2, 3, 4.5])]
+            mg = rng.choice([0, 0.05, 0.1, 0.3])
+        tpl = tpl or rng.choice(["reuse", "reuse", "reuse", "summ-reuse", "summ-reuse", "late-band", "change", "errors", "soup", "soup", "two-rasters", "nodata", "nodata"])
+        ncoll = rng.randrange(2, 4)
+        colls = [self.s_coll(rng, mode, W, H, ox, oy, 1 + 10 * k, empty_ok=(k > 0)) for k in range(ncoll)]
+        # collection 0 has no empty track and spans the study area: a raster built on its bounding box contains the others
+        if not colls[0][0]["pts"]:
+            colls[0][0]["pts"] = [[ox, oy]]
+            colls[0][0]["f"] = {"v": [1.0], "w": [2.0]}
+        for t in colls[0]:
+            if not t["pts"]:
+                t["pts"], t["f"] = [[ox + W, oy]], {"v": ["nan"], "w": [0.5]}
+        colls[0][0]["pts"][0] = [ox, oy]
+        t = colls[0][-1]
+        t["pts"].append([ox + W, oy + H])
+        for n in t["f"]:
+            t["f"][n].append(rng.choice([1.0, "nan", -3.5]))
+        area = [ox, ox + W, oy, oy + H]
+        nov = None                                                  # None: the constructor's default; "None": novalue=None
+        if tpl == "nodata" or rng.random() < 0.25:
+            nov = rng.choice([-1.0, 0.0, -99999.0, 12345.0, -1.0, 0.5, "None"])
+        def nodata():
+            return ["nodata", rng.choice([-1.0, 0.0, -99999.0, 7.0, 2.5, "None"])]
+        new = ["new", rng.choice([area, area, {"of": 0}]), res, mg, nov]
+        if tpl == "errors" and rng.random() < 0.4:                  # a raster smaller than the study area: observations outside
+            new = ["new", [ox, ox + W / 2, oy, oy + H / 2] if mode == "q" else [ox, ox + W * 0.5, oy, oy + H * 0.5], res, mg, nov]
+        bands = []
+        for _ in range(rng.randrange(1, 6)):
+            b = self.s_band(rng, 0.25 if tpl == "errors" else 0.04)
+            bands.append(["band", b] if rng.random() > 0.08 else ["band", b, self.s_grid(rng, area, res, mg)])
+        ops = []
+        pick = lambda: rng.randrange(0, ncoll)
+        def setfeat():
+            k = pick()
+            cand = [i for i, t in enumerate(colls[k]) if t["pts"]]
+            if not cand:
+                return None
+            ti = rng.choice(cand)
+            return ["setfeat", k, ti, rng.choice(["v", "v", "w"]), self.values(rng, len(colls[k][ti]["pts"]))]
+        def summ(k=None):
+            ag = self.rand_aggs(rng)
+            afs, opn = [a for a, _ in ag], [o for _, o in ag]
+            r = rng.random()
+            if r < 0.06:
+                afs, opn = afs[:1], opn[:1]
+                form = "scalar"
+            else:
+                form = rng.choice(["list", "list", "callable"])
+            if r > 0.9:
+                what = rng.choice(["dup", "short", "empty", "undef", "xy"])
+                if what == "dup":
+                    afs, opn = afs + afs[:1], opn + opn[:1]
+                elif what == "short":
+                    opn = opn[:-1]
+                elif what == "empty":
+                    afs, opn = [], []
+                elif what == "undef":
+                    opn[rng.randrange(len(opn))] = "undefined_op"
+                else:
+                    afs, opn = afs + ["x", "idx"], opn + [rng.choice(OPS), rng.choice(OPS)]
+            return ["summarize", pick() if k is None else k, afs, opn, res, mg, form]
+        if tpl == "reuse":
+            ops = [new] + bands
+            for _ in range(rng.randrange(2, 4)):
+                ops += [["add", pick()]] + ([nodata()] if rng.random() < 0.15 else []) + [["compute"]]
+        elif tpl == "nodata":
+            # the raster's own no-data value: given to the constructor, changed before the bands / between
+            # addCollectionToRaster and computeAggregates / between two computeAggregates
+            ops = [new] + ([nodata()] if rng.random() < 0.3 else []) + bands + [["add", pick()]]
+            ops += ([nodata()] if rng.random() < 0.6 else []) + [["compute"]]
+            if rng.random() < 0.6:
+                ops += [nodata(), ["compute"]]
+            if rng.random() < 0.5:
+                ops += [["add", pick()]] + ([nodata()] if rng.random() < 0.5 else []) + [["band", self.s_band(rng, 0.0)], ["compute"]]
+        elif tpl == "summ-reuse":
+            ops = [summ(0)]
+            for _ in range(rng.randrange(1, 3)):
+                if rng.random() < 0.3:
+                    ops.append(["band", self.s_band(rng, 0.0)])
+                ops += [["add", pick()], ["compute"]]
+        elif tpl == "late-band":
+            ops = [new] + bands + [["add", pick()], ["compute"], ["band", self.s_band(rng, 0.0)], ["compute"]]
+            if rng.random() < 0.5:
+                ops += [["add", pick()], ["band", self.s_band(rng, 0.05)], ["compute"]]
+        elif tpl == "change":
+            k = pick()
+            ops = [new] + bands + [["add", k]]
+            for _ in range(rng.randrange(1, 3)):
+                sf = setfeat()
+                if sf:
+                    ops.append(sf)
+            ops += [["compute"], ["add", k], ["compute"]]
+        elif tpl == "two-rasters":
+            new = ["new", area, res, mg if mg else (0.25 if mode == "q" else 0.1), nov]
+            ops = [new] + bands + [["add", pick()], ["compute"], list(new)] + bands[:2] + [["add", pick()], ["compute"]]
+        elif tpl == "errors":
+            ops = [new]
+            if rng.random() < 0.3:
+                ops.append(["compute"])
+            ops += bands
+            if rng.random() < 0.3:
+                ops.append(["compute"])
+            ops += [["add", pick()], ["compute"], ["band", self.s_band(rng, 0.3)], ["compute"], ["add", pick()], ["compute"]]
+        else:
+            ops = [new if rng.random() < 0.7 else summ()]
+            for _ in range(rng.randrange(3, 10)):
+                r = rng.random()
+                if r < 0.2:
+                    ops.append(["band", self.s_band(rng)] if rng.random() > 0.1 else ["band", self.s_band(rng), self.s_grid(rng, area, res, mg)])
+                elif r < 0.5:
+                    ops.append(["add", pick()])
+                elif r < 0.8:
+                    ops.append(["compute"])
+                elif r < 0.9:
+                    sf = setfeat()
+                    if sf:
+                        ops.append(sf)
+                elif r < 0.95:
+                    ops.append(summ())
+                else:
+                    ops.append(nodata())
+        return {"kind": "session", "mode": mode, "tpl": tpl, "colls": colls, "ops": ops}
+
+    def session_enum(self, tier):
+        """every sequence of calls from a small alphabet on a raster over [0,2]^2 with unit cells:
+        quick: 1..5 calls from {addAFMap(v#co_count), add(c0), add(c1), computeAggregates}, the band w#co_median present from the start;
+        thorough: 1..6 calls from those and addAFMap(w#co_median), no band at the start"""
+        c0 = [{"uid": 1, "pts": [[0, 0], [0.5, 0.5], [2, 2]], "f": {"v": [1.0, "nan", 3.0], "w": [2.0, 2.0, "nan"]}},
+              {"uid": 2, "pts": [[1.5, 0.5]], "f": {"v": [5.0], "w": [1.0]}}]
+        c1 = [{"uid": 7, "pts": [[0.25, 1.75], [1.5, 0.5], [1.5, 0.25]], "f": {"v": ["nan", 4.0, 6.0], "w": [1.0, 1.0, 1.0]}}]
+        alpha = [["band", "v#co_count"], ["add", 0], ["add", 1], ["compute"]]
+        head = [["new", [0, 2, 0, 2], [1, 1], 0, None], ["band", "w#co_median"]]
+        maxlen = 5
+        if tier != "quick":
+            alpha, head, maxlen = alpha + [["band", "w#co_median"]], head[:1], 6
+        for n in range(1, maxlen + 1):
+            for seq in itertools.product(alpha, repeat=n):
+                yield {"kind": "session", "mode": "q", "tpl": "enum", "colls": [c0, c1], "ops": head + [list(o) for o in seq]}
+
+    def describe_session(self, case):
+        ops = [o[0] for o in case["ops"]]
+        adds = [o[1] for o in case["ops"] if o[0] == "add"]
+        return {"kind": "session-" + case["mode"], "tpl": case.get("tpl", "?"), "calls": min(len(ops), 12),
+                "adds": len(adds) + ops.count("summarize"), "computes": ops.count("compute"),
+                "collections_added": len(set(adds)), "first": ops[0]}
+
+    def nontrivial_session(self, case):
+        """a collection is scattered on a raster that already held another one's values, or is aggregated at all"""
+        ops = [o[0] for o in case["ops"]]
+        return ("add" in ops or "summarize" in ops) and ("compute" in ops or "summarize" in ops)
+
+    def shrink_session(self, case):
+        ops = case["ops"]
+        for i in range(len(ops) - 1, 0, -1):
+            yield dict(case, ops=ops[:i] + ops[i + 1:])
+        touched = {o[1] for o in ops if o[0] == "setfeat"}
+        for k, col in enumerate(case["colls"]):
+            if k in touched:
+                continue
+            if len(col) > 1:
+                for ti in range(len(col)):
+                    yield dict(case, colls=case["colls"][:k] + [col[:ti] + col[ti + 1:]] + case["colls"][k + 1:])
+            for ti, t in enumerate(col):
+                if len(t["pts"]) > 1:
+                    for j in range(len(t["pts"])):
+                        t2 = {"uid": t["uid"], "pts": t["pts"][:j] + t["pts"][j + 1:], "f": {n: v[:j] + v[j + 1:] for n, v in t["f"].items()}}
+                        yield dict(case, colls=case["colls"][:k] + [col[:ti] + [t2] + col[ti + 1:]] + case["colls"][k + 1:])
+
+
+# ---- tie to the source by translation (tools/py2lean.py -> lean/TracklibVerif/Gen/Raster.lean, regenerated on every run)
+P.tie_modules = ["TracklibVerif.Tie.C19"]
+P.theorems = P.theorems + [
+    ("TracklibVerif.Tie.C19", "TV.Tie.C19.tie_getCell", "the Lean translation of the CURRENT source of Raster.getCell equals the model's getCell on all arguments (resolution != 0; int() = floor on integral floats; the scalar's == is Python's ==)"),
+]
